@@ -47,6 +47,7 @@ import EsbuildModel.Impl.CjsWrapDriver
 import EsbuildModel.Impl.OutPathsDriver
 import EsbuildModel.Impl.StrLex
 import EsbuildModel.Impl.ResolveWalk
+import EsbuildModel.Impl.Glob
 
 open EsbuildModel
 
@@ -104,6 +105,7 @@ def dispatch (kernel : String) (args : List String) : String :=
   | "outpaths" => OutPaths.driver args
   | "strlex" => StrLex.driver args
   | "tspaths" => ResolveWalk.driver args
+  | "glob" => Glob.driver args
   | _ => "bad-kernel"
 
 partial def loop (hin hout : IO.FS.Stream) : IO Unit := do
